@@ -423,6 +423,20 @@ def main(argv):
         print(f"no harness for {prop}: {e}")
         return 2
     run = Run(prop, a.tier, seed)
+    # every temporary file of this run lives under one private directory that is removed at the end
+    import shutil
+    import tempfile
+    scratch = tempfile.mkdtemp(prefix=f"verif_{prop}_run_")
+    tempfile.tempdir = scratch
+    os.environ["TMPDIR"] = scratch
+    try:
+        return _main_body(a, prop, seed, mod, run)
+    finally:
+        tempfile.tempdir = None
+        shutil.rmtree(scratch, ignore_errors=True)
+
+
+def _main_body(a, prop, seed, mod, run):
     try:
         ok, out, build_s = lean_build()
         if not ok:
